@@ -19,9 +19,15 @@ def jLookup (kvs : List (String × JVal)) (k : String) : Option JVal :=
   (kvs.find? (·.1 == k)).map (·.2)
 
 /-- a flat list of numbers as numpy reads it: all ints → int64, mixed → float64, `[]` → float64 -/
+def jInt? : JVal → Option Rat
+  | .int i => some i | _ => none
+
+def jNum? : JVal → Option Rat
+  | .int i => some i | .flt q => some q | _ => none
+
 def readArray (l : List JVal) : Option Val :=
-  let ints := l.filterMap fun | JVal.int i => some (i : Rat) | _ => none
-  let nums := l.filterMap fun | JVal.int i => some (i : Rat) | JVal.flt q => some q | _ => none
+  let ints := l.filterMap jInt?
+  let nums := l.filterMap jNum?
   if l.isEmpty then some (.arr false [0] [])
   else if ints.length == l.length then some (.arr true [l.length] ints)
   else if nums.length == l.length then some (.arr false [l.length] nums)
@@ -50,27 +56,32 @@ def sliceKeys : List String :=
   ["currency", "country", "risk_basis", "reinsurance_basis", "loss_definition",
    "per_occurrence_limit", "details", "loss_details", "cells"]
 
+def readValues (kvs : List (String × JVal)) : Option (Dict Val) :=
+  match jLookup kvs "values" with
+  | some (.obj vs) =>
+    if nodupKeys (vs.map (·.1)) && triggerFree (vs.map (·.1)) then
+      vs.mapM fun kv => (readVal kv.2).map fun v => (kv.1, v)
+    else none
+  | _ => none
+
+def readPrev (kvs : List (String × JVal)) : Option (Option Date) :=
+  if (kvs.map (·.1)).contains "prev_evaluation_date" then
+    (readDate kvs "prev_evaluation_date").map some
+  else some none
+
 /-- one cell object: three ISO dates, optionally `prev_evaluation_date` (then the cell is
-incremental), and `values`; no other keys -/
+incremental), and `values`; no other keys; the dates obey the constructor's rules -/
 def readCell : JVal → Option JCell
-  | .obj kvs => do
-    let keys := kvs.map (·.1)
-    guard (nodupKeys keys && keys.all cellKeys.contains)
-    let ps ← readDate kvs "period_start"
-    let pe ← readDate kvs "period_end"
-    let ev ← readDate kvs "evaluation_date"
-    let incr := keys.contains "prev_evaluation_date"
-    let prev ← if incr then (readDate kvs "prev_evaluation_date").map some else some none
-    let values ← match jLookup kvs "values" with
-      | some (.obj vs) =>
-        if nodupKeys (vs.map (·.1)) && triggerFree (vs.map (·.1)) then
-          vs.mapM fun kv => (readVal kv.2).map fun v => (kv.1, v)
-        else none
-      | _ => none
-    let c : JCell := { kind := if incr then .incremental else .cumulative, ps := ps, pe := pe,
-                       ev := ev, prev := prev, values := values, md := {} }
-    guard c.datesOk
-    pure c
+  | .obj kvs =>
+    if nodupKeys (kvs.map (·.1)) && (kvs.map (·.1)).all cellKeys.contains then
+      (readDate kvs "period_start").bind fun ps =>
+      (readDate kvs "period_end").bind fun pe =>
+      (readDate kvs "evaluation_date").bind fun ev =>
+      (readPrev kvs).bind fun prev =>
+      (readValues kvs).bind fun values =>
+      let c := mkObservation ((kvs.map (·.1)).contains "prev_evaluation_date") ps pe ev prev values
+      if c.datesOk then some c else none
+    else none
   | _ => none
 
 def readStrAttr (kvs : List (String × JVal)) (k : String) (dflt : Option String) :
@@ -90,29 +101,35 @@ def readDetails (kvs : List (String × JVal)) (k : String) : Option (Dict Scalar
     else none
   | some _ => none
 
+def readLimit (kvs : List (String × JVal)) : Option Scalar :=
+  match jLookup kvs "per_occurrence_limit" with
+  | none => some .null
+  | some .null => some .null
+  | some (.int i) => some (.int i)
+  | some (.flt q) => some (.flt q)
+  | some _ => none
+
+def readCells (kvs : List (String × JVal)) : Option (List JCell) :=
+  match jLookup kvs "cells" with
+  | some (.arr cs) => cs.mapM readCell
+  | _ => none
+
 /-- one slice object: each metadata attribute at most once (absent = default), and `cells` -/
 def readSlice : JVal → Option (List JCell)
-  | .obj kvs => do
-    let keys := kvs.map (·.1)
-    guard (nodupKeys keys && keys.all sliceKeys.contains)
-    let rb ← readStrAttr kvs "risk_basis" (some "Accident")
-    let co ← readStrAttr kvs "country" none
-    let cu ← readStrAttr kvs "currency" none
-    let re ← readStrAttr kvs "reinsurance_basis" none
-    let ld ← readStrAttr kvs "loss_definition" none
-    let lim ← match jLookup kvs "per_occurrence_limit" with
-      | none => some Scalar.null
-      | some .null => some .null
-      | some (.int i) => some (.int i)
-      | some (.flt q) => some (.flt q)
-      | some _ => none
-    let det ← readDetails kvs "details"
-    let ldet ← readDetails kvs "loss_details"
-    let md : JMeta := { riskBasis := rb, country := co, currency := cu, reinsuranceBasis := re,
-                        lossDefinition := ld, limit := lim, details := det, lossDetails := ldet }
-    match jLookup kvs "cells" with
-    | some (.arr cs) => (cs.mapM readCell).map fun l => l.map fun c => { c with md := md }
-    | _ => none
+  | .obj kvs =>
+    if nodupKeys (kvs.map (·.1)) && (kvs.map (·.1)).all sliceKeys.contains then
+      (readStrAttr kvs "risk_basis" (some "Accident")).bind fun rb =>
+      (readStrAttr kvs "country" none).bind fun co =>
+      (readStrAttr kvs "currency" none).bind fun cu =>
+      (readStrAttr kvs "reinsurance_basis" none).bind fun re =>
+      (readStrAttr kvs "loss_definition" none).bind fun ld =>
+      (readLimit kvs).bind fun lim =>
+      (readDetails kvs "details").bind fun det =>
+      (readDetails kvs "loss_details").bind fun ldet =>
+      (readCells kvs).map fun l => l.map fun c =>
+        { c with md := { riskBasis := rb, country := co, currency := cu, reinsuranceBasis := re,
+                         lossDefinition := ld, limit := lim, details := det, lossDetails := ldet } }
+    else none
   | _ => none
 
 /-- the whole document: exactly `{"slices": [slice, …]}`; the cells in document order -/
